@@ -655,7 +655,48 @@ def emit_int_compare_const(repo, spec):
     return text, {'name': spec['name'], 'where': where, 'sha256': sha}
 
 
-EXTRACTORS = {'string_dict': emit_string_dict, 'int_compare_const': emit_int_compare_const}
+def emit_cleanup_arg(repo, spec):
+    """second argument of every remove_positions(...) call inside func: emits
+    `cleanup_all = true` when it is the whole molecule (molecule.nodes) and `false` when it is a
+    name bound to the comprehension over nodes filtered by the `build` attribute; anything else
+    is rejected"""
+    src = Source(repo, spec['file'])
+    fn = src.find_def(spec['func'])
+    calls = [n for n in ast.walk(fn) if isinstance(n, ast.Call) and isinstance(n.func, ast.Attribute)
+             and n.func.attr == 'remove_positions']
+    if not calls:
+        raise TranslateError(f"{spec['file']}: no remove_positions call in {spec['func']}")
+    kinds = set()
+    for c in calls:
+        if len(c.args) != 2:
+            raise TranslateError(f"{spec['file']}:{c.lineno}: unexpected remove_positions arguments")
+        arg = ast.unparse(c.args[1])
+        if arg == 'molecule.nodes':
+            kinds.add('all')
+        elif isinstance(c.args[1], ast.Name):
+            binds = [n for n in ast.walk(fn) if isinstance(n, ast.Assign) and len(n.targets) == 1
+                     and isinstance(n.targets[0], ast.Name) and n.targets[0].id == c.args[1].id]
+            if len(binds) != 1:
+                raise TranslateError(f"{spec['file']}:{c.lineno}: {arg} is not bound exactly once")
+            text = ast.unparse(binds[0].value).replace(' ', '')
+            ok = ("[nodefornodeinmolecule.nodesifmolecule.nodes[node].get('build',True)]",
+                  "[nodefornodeinmolecule.nodesifmolecule.nodes[node]['build']]")
+            if text not in ok:
+                raise TranslateError(f"{spec['file']}:{binds[0].lineno}: unrecognised clean-up set {text}")
+            kinds.add('built')
+        else:
+            raise TranslateError(f"{spec['file']}:{c.lineno}: unrecognised clean-up argument {arg}")
+    if len(kinds) != 1:
+        raise TranslateError(f"{spec['file']}: the remove_positions calls of {spec['func']} disagree: {sorted(kinds)}")
+    where, sha = src.stamp(fn)
+    val = 'true' if kinds == {'all'} else 'false'
+    text = (f"(* {spec['name']} <- {where} sha256={sha} *)\n"
+            f"Definition {spec['name']} : bool := {val}.\n")
+    return text, {'name': spec['name'], 'where': where, 'sha256': sha}
+
+
+EXTRACTORS = {'string_dict': emit_string_dict, 'int_compare_const': emit_int_compare_const,
+              'cleanup_arg': emit_cleanup_arg}
 
 
 def register_extractor(kind, fn):
